@@ -18,6 +18,9 @@ BINOPS = {ast.Add: "+", ast.Sub: "-", ast.Mult: "*", ast.Div: "/", ast.FloorDiv:
 CMPOPS = {ast.Lt: "<", ast.LtE: "<=", ast.Gt: ">", ast.GtE: ">=", ast.Eq: "==", ast.NotEq: "!="}
 
 
+SCALARIZE = []       # hooks: (run, value) -> scalar-like value or None
+
+
 class PathEnd(Exception):
     pass
 
@@ -129,6 +132,7 @@ class Ctx:
         self.sorts = {}
         self.policy = {}          # qualname -> 'inline' | 'contract'
         self.timeout_ms = 10000
+        self.check_div = False
         self.intern("drift")
         self.intern("warning")
 
@@ -337,6 +341,11 @@ class Run:
 
     def num(self, v, what="number"):
         v = self.unopt(v, what)
+        for h in SCALARIZE:
+            r = h(self, v)
+            if r is not None:
+                v = r
+                break
         if isinstance(v, (SArr1, SExt)):
             return v
         if is_z3(v) and v.sort() == Label:
@@ -348,6 +357,10 @@ class Run:
     # -- equality ----------------------------------------------------------
     def eq(self, a, b):
         """Python == as python bool / z3 Bool"""
+        for h in SCALARIZE:
+            ra, rb = h(self, a), h(self, b)
+            a = ra if ra is not None else a
+            b = rb if rb is not None else b
         if isinstance(a, SArr1):
             a = a.val
         if isinstance(b, SArr1):
@@ -707,7 +720,9 @@ class Interp:
         b = run.num(b, "operand")
         if sop in ("/", "//", "%"):
             bv = b.val if isinstance(b, SArr1) else b
-            if is_z3(bv):
+            if is_z3(bv) and not self.ctx.check_div:
+                pass        # z3's total division: nothing can be concluded from a quotient whose divisor may be 0
+            elif is_z3(bv):
                 run.oblige("div-nonzero@%s" % getattr(node, "lineno", "?"), cmp("!=", bv, 0), kind="safety",
                            where=getattr(node, "lineno", None))
             elif bv == 0:
